@@ -102,6 +102,8 @@ def is_fp_like(v):
 
 
 def to_bool(v):
+    if v is None:
+        return z3.BoolVal(False)
     if isinstance(v, bool):
         return z3.BoolVal(v)
     if z3.is_expr(v) and z3.is_bool(v):
@@ -131,9 +133,17 @@ def compare(op, a, b):
             ast.GtE: lambda p, q: p >= q, ast.Eq: lambda p, q: p == q, ast.NotEq: lambda p, q: p != q}[type(op)](x, y)
 
 
+class Opaque:
+    """a value the translator does not model; using it in a condition makes the function untranslatable"""
+
+    def __init__(self, src):
+        self.src = src
+
+
 class Translator:
-    def __init__(self, lenwidth=8):
+    def __init__(self, lenwidth=8, return_mode="value"):
         self.lenwidth = lenwidth
+        self.return_mode = return_mode      # "value" | "lineno" (which return statement fires, as an Int)
         self.side = []          # side conditions (e.g. divisor != 0) collected during translation
 
     # ---------------------------------------------------------------- expressions
@@ -164,8 +174,15 @@ class Translator:
             raise Untranslatable(f"no attribute {key}")
 
     def ev_BoolOp(self, node, env):
-        vals = [to_bool(self.ev(v, env)) for v in node.values]
-        return z3.And(*vals) if isinstance(node.op, ast.And) else z3.Or(*vals)
+        # Python's short circuit: operands after a concretely deciding one are never evaluated
+        vals = []
+        is_and = isinstance(node.op, ast.And)
+        for v in node.values:
+            b = to_bool(self.ev(v, env))
+            vals.append(b)
+            if (z3.is_false(b) and is_and) or (z3.is_true(b) and not is_and):
+                break
+        return z3.And(*vals) if is_and else z3.Or(*vals)
 
     def ev_UnaryOp(self, node, env):
         v = self.ev(node.operand, env)
@@ -195,6 +212,13 @@ class Translator:
         conj = []
         for op, right in zip(node.ops, node.comparators):
             r = self.ev(right, env)
+            if isinstance(op, (ast.Is, ast.IsNot)):
+                if r is None or left is None:
+                    same = (left is None and r is None)
+                    conj.append(z3.BoolVal(same if isinstance(op, ast.Is) else not same))
+                    left = r
+                    continue
+                raise Untranslatable("identity comparison of non-None values")
             conj.append(compare(op, left, r))
             left = r
         return conj[0] if len(conj) == 1 else z3.And(*conj)
@@ -319,6 +343,12 @@ class Translator:
         # method call on a live object whose body we can translate recursively: obj.method(args)
         if isinstance(node.func, ast.Attribute):
             obj = self.ev(node.func.value, env)
+            if isinstance(obj, dict) and node.func.attr == "get" and 1 <= len(node.args) <= 2:
+                key = self.ev(node.args[0], env)
+                default = self.ev(node.args[1], env) if len(node.args) == 2 else None
+                if z3.is_expr(key):
+                    raise Untranslatable("symbolic dict key")
+                return obj.get(key, default)
             if not z3.is_expr(obj) and not isinstance(obj, (SetBV, IntBV, Bounded, StrLen, tuple)):
                 meth = getattr(type(obj), node.func.attr, None)
                 if meth is not None and inspect.isfunction(meth):
@@ -335,6 +365,8 @@ class Translator:
             if isinstance(st, ast.Pass):
                 continue
             if isinstance(st, ast.Return):
+                if self.return_mode == "lineno":
+                    return z3.IntVal(st.lineno)
                 return self.ev(st.value, env) if st.value is not None else None
             if isinstance(st, (ast.Assign, ast.AnnAssign)):
                 target = st.targets[0] if isinstance(st, ast.Assign) else st.target
@@ -343,7 +375,12 @@ class Translator:
                 key = target.id if isinstance(target, ast.Name) else ast.unparse(target)
                 if not isinstance(target, (ast.Name, ast.Attribute)):
                     raise Untranslatable("assignment target")
-                env[key] = self.ev(st.value, env)
+                if key in getattr(self, "frozen", ()):
+                    continue        # value supplied by the caller's environment
+                try:
+                    env[key] = self.ev(st.value, env)
+                except Untranslatable:
+                    env[key] = Opaque(ast.unparse(st.value))
                 continue
             if isinstance(st, ast.If):
                 c = to_bool(self.ev(st.test, env))
